@@ -532,22 +532,44 @@ class Stream(APIRegisterMixin):
         downstream: Stream
             The downstream stream to connect to
         """
-        if (self.loop is not None and downstream.loop is not None
-                and self.loop is not downstream.loop):
+        # what is known about the event loop and the mode anywhere in the two
+        # pipelines; checked before anything is changed, so that a refused
+        # connect leaves both of them as they were
+        loops, modes = self._pipeline_knowledge()
+        for loop in downstream._pipeline_knowledge(modes)[0]:
+            if not any(loop is known for known in loops):
+                loops.append(loop)
+        if len(loops) > 1:
             raise ValueError("Two different event loops active")
-        if (self.asynchronous is not None
-                and downstream.asynchronous is not None
-                and self.asynchronous is not downstream.asynchronous):
+        if len(modes) > 1:
             raise ValueError("Stream has both asynchronous and synchronous elements")
         self._add_downstream(downstream)
         downstream._add_upstream(self)
-        # the two sides form one pipeline now: what one of them knows about
-        # the event loop and the mode holds for the other as well
-        for known, other in ((self, downstream), (downstream, self)):
-            if known.loop is not None:
-                other._inform_loop(known.loop)
-            if known.asynchronous is not None:
-                other._inform_asynchronous(known.asynchronous)
+        # the two sides form one pipeline now: one event loop, one mode
+        for node in (self, downstream):
+            if loops:
+                node._inform_loop(loops[0])
+            if modes:
+                node._inform_asynchronous(next(iter(modes)))
+
+    def _pipeline_knowledge(self, modes=None):
+        """ The event loops and the modes known to any node connected to this one """
+        loops = []
+        modes = set() if modes is None else modes
+        seen = set()
+        todo = [self]
+        while todo:
+            node = todo.pop()
+            if node is None or id(node) in seen:
+                continue
+            seen.add(id(node))
+            if node.loop is not None and not any(node.loop is known for known in loops):
+                loops.append(node.loop)
+            if node.asynchronous is not None:
+                modes.add(bool(node.asynchronous))
+            todo.extend(node.upstreams)
+            todo.extend(node.downstreams)
+        return loops, modes
 
     def disconnect(self, downstream):
         """ Disconnect this stream to a downstream element.
